@@ -1,6 +1,6 @@
 import Ebv.Driver.Io
-import Ebv.Props.C23
-open Ebv Ebv.Io Ebv.Parallel Ebv.C23 Lean
+import Ebv.Model.Parallel
+open Ebv Ebv.Io Ebv.Parallel Lean
 
 def optS : Option Nat → String
   | some n => toString n
